@@ -326,8 +326,8 @@ def result_test_blocks(f, g, call):
     return out
 
 
-def completion_closure_breaks(f):
-    """(loop, break) pairs: a loop that adds the `ancestors` of the members of a `completion` set and leaves at the first member.
+def completion_closure_breaks(f, sets=('completion', 'target')):
+    """(loop, break) pairs: a loop that adds the `ancestors` of the members of a `completion` / `target` set and leaves at the first member.
     Works on the engines (C++) and on the reconstructed C of the emitted step function."""
     out, n_loops = [], 0
     for lp in f.walk():
@@ -342,7 +342,10 @@ def completion_closure_breaks(f):
             is_add = (n['k'] in ('CompoundAssignOperator', 'CXXOperatorCallExpr', 'BinaryOperator') and n.get('op') == '|=') or (
                 n['k'] in ('CallExpr', 'CXXMemberCallExpr') and n.get('callee', {}).get('q', '').split('::')[-1] in ('bit_or', 'insert'))
             if is_add and 'ancestors' in names:
-                adds.append(n)
+                # the loop that walks the members is the innermost loop around the addition
+                inner = next((a_ for a_ in f.ancestors(n) if a_['k'] in ('ForStmt', 'WhileStmt', 'CXXForRangeStmt', 'DoStmt')), None)
+                if inner is lp:
+                    adds.append(n)
         if not adds:
             continue
         # the member test on `completion` that selects the element (in the loop header or an enclosing if inside the loop)
@@ -351,10 +354,10 @@ def completion_closure_breaks(f):
             for anc in f.ancestors(a_):
                 if anc is lp:
                     break
-                if anc['k'] == 'IfStmt' and any(x['k'] == 'MemberExpr' and x['ref'].get('name') == 'completion' for x in sub([c for c in anc['c'] if c is not None][0])):
+                if anc['k'] == 'IfStmt' and any(x['k'] == 'MemberExpr' and x['ref'].get('name') in sets for x in sub([c for c in anc['c'] if c is not None][0])):
                     sel = True
         hdr = [x for x in sub(lp) if x['id'] not in {y['id'] for y in sub(body)}]
-        if any(x['k'] == 'MemberExpr' and x['ref'].get('name') == 'completion' for x in hdr):
+        if any(x['k'] == 'MemberExpr' and x['ref'].get('name') in sets for x in hdr):
             sel = True
         if not sel:
             continue
